@@ -7,6 +7,7 @@ the filtered / dispersed chain whenever the received samples stay closer than ha
 (that hypothesis is evaluated numerically, on the real code, for every generated case); error counting.
 -/
 import OptiVerif.Lemmas.Link
+import OptiVerif.Props.C12
 
 namespace OptiVerif.Props.C03
 open OptiVerif OptiVerif.Link OptiVerif.Modulators
@@ -125,6 +126,37 @@ theorem counter_zero_of_link (kPD lossdB erdB Vpi biasM vout bias : ℝ) (sps i 
           (rx kPD lossdB erdB Vpi biasM (lvl vout bias true)) y
           ((rx kPD lossdB erdB Vpi biasM (lvl vout bias false) + rx kPD lossdB erdB Vpi biasM (lvl vout bias true)) / 2))) = 0 := by
   rw [memoryless_link kPD lossdB erdB Vpi biasM vout bias sps i hi bits hlev, errors_self]
+
+/-! ### PPM over the same link: soft decision returns the codeword (composition with C12) -/
+
+theorem sumL_replicate (n : ℕ) (v : ℝ) : Ppm.sumL (List.replicate n v) = n * v := by
+  induction n with
+  | zero => simp [Ppm.sumL]
+  | succ n ih =>
+    simp only [Ppm.sumL, List.replicate_succ, List.foldr_cons] at *
+    rw [ih]; push_cast; ring
+
+/-- **PPM soft decision over the memoryless link**: for every valid codeword `c` of any power-of-two order (in
+    particular every `PPM_ENCODER` output, C12 `encode_valid`), the waveform received through DAC → MZM → PD with the ON
+    level above the OFF level is decoded by SDD back to `c` exactly — for every sps ≥ 1 and every device parameter set.
+    With C12's `decode_encode` the transmitted bits follow (truncated to whole symbols). -/
+theorem ppm_soft_link (kPD lossdB erdB Vpi biasM vout bias : ℝ) (M sps : ℕ) (hM : 0 < M)
+    (hp : Ppm.pow2Test (M : Int) = true) (hs : 0 < sps) (c : List Bool) (hv : Ppm.ValidCW M c)
+    (hlev : rx kPD lossdB erdB Vpi biasM (lvl vout bias false) < rx kPD lossdB erdB Vpi biasM (lvl vout bias true)) :
+    Ppm.sdd (M : Int) sps (received kPD lossdB erdB Vpi biasM vout bias sps c) = .ok c := by
+  have h := OptiVerif.Props.C12.sdd_id_on_waveforms (R := ℝ) M sps hM hp hs c hv
+    (List.replicate sps (rx kPD lossdB erdB Vpi biasM (lvl vout bias false)))
+    (List.replicate sps (rx kPD lossdB erdB Vpi biasM (lvl vout bias true)))
+    (by simp) (by simp)
+    (by rw [sumL_replicate, sumL_replicate]
+        exact mul_lt_mul_of_pos_left hlev (by exact_mod_cast hs))
+  rw [← h, received_slots]
+  congr 1
+  rw [List.flatMap_def, List.map_map]
+  congr 1
+  apply List.map_congr_left
+  intro b _
+  cases b <;> simp
 
 /-! ### non-vacuity -/
 example : decideBit (0 : ℝ) 1 0.9 ((0 + 1) / 2) = true := by
